@@ -18,7 +18,7 @@ ID = "C08"
 PROPS = "Props/C08.v"
 IMPORTS = ("From Coq Require Import NArith.\nFrom PV Require Import Lib.Common Gen.C08_Entropy Model.C08_World.\n"
            "Import String.StringSyntax.\nDelimit Scope string_scope with string.")
-SHARD = 12
+SHARD = 16
 LEVEL_TEXT = ("Coq theorems over (a) a world model {python stream, numpy stream, OS, explicit generators}: any program of calls whose "
               "footprints avoid the OS is reproducible after seed(s) whatever the prior world, a call with an explicit-generator "
               "footprint leaves both global streams untouched and depends on that generator only; (b) the reference graph of the "
@@ -497,24 +497,24 @@ def gen_cases(rng, tier):
         cases.append({"kind": "seedmodel", "seed": rng.getrandbits(20), "reqs": [None, None, None, None, 8, None, 5], "sbits": 1 + i % 2})
     # --- reproducibility after seeding (rng = None everywhere): every component alone, then programs
     singles = CLEAN_RNG + GLOBAL_ONLY + FINDING_COMPS
-    for rep in range(1 if quick else 6):
+    for rep in range(2 if quick else 6):
         for comp in singles:
             cases.append({"kind": "repro", "seed": rng.choice(SEED_EDGE + [rng.getrandbits(40)]), "h1": _rand_hist(rng, rep > 0), "h2": _rand_hist(rng, True),
                           "prog": [{"comp": comp, "par": _rand_par(rng, comp)}]})
-    for _ in range(30 if quick else 400):
+    for _ in range(50 if quick else 400):
         k = rng.choice([2, 3])
         pool = CLEAN_RNG + GLOBAL_ONLY if rng.random() < 0.85 else singles
         prog = [{"comp": c, "par": _rand_par(rng, c)} for c in (rng.choice(pool) for _ in range(k))]
         cases.append({"kind": "repro", "seed": rng.getrandbits(rng.choice([8, 32, 64])), "h1": _rand_hist(rng), "h2": _rand_hist(rng, True), "prog": prog})
     # --- isolation with an explicit generator
     accept = [c for c in CLEAN_RNG + FINDING_COMPS if COMPONENTS[c][1]]
-    for rep in range(1 if quick else 5):
+    for rep in range(3 if quick else 6):
         for comp in accept:
             for rk in (["Generator", "RandomState"] if rep == 0 else [rng.choice(["Generator", "RandomState", "MT"])]):
                 cases.append({"kind": "isolated", "rngkind": rk, "rseed": rng.getrandbits(31), "skip": rng.choice([0, 0, 3]),
                               "h1": _rand_hist(rng), "h2": [["py", rng.randint(1, 30)], ["np", rng.randint(1, 30)]] + _rand_hist(rng),
                               "prog": [{"comp": comp, "par": _rand_par(rng, comp)}]})
-    for _ in range(20 if quick else 300):
+    for _ in range(40 if quick else 300):
         k = rng.choice([2, 3])
         prog = [{"comp": c, "par": _rand_par(rng, c)} for c in (rng.choice(CLEAN_RNG) for _ in range(k))]
         cases.append({"kind": "isolated", "rngkind": rng.choice(["Generator", "RandomState", "MT"]), "rseed": rng.getrandbits(31), "skip": 0,
